@@ -13,11 +13,20 @@ package c16
 //   - the root CID equals the root CID of a canonical fresh build (sorted adds) of that set.
 // Sub-check "hamt": the same CID comparison for a pure HAMT directory.
 //
+// Fault injection (both sub-checks): the directory's DAGService is wrapped; an op may carry
+// fail_add = n, then the n-th DAGService.Add issued DURING that AddChild fails (a full or
+// unreachable block store). The generator places such a failing add directly before the add that
+// crosses the sharding boundary upwards (and before other adds) and repeats the same add without
+// fault afterwards. A failed op is an edit of the history like any other: the entries the
+// directory then reports (Links()) are its current set, and the same three clauses are demanded
+// for that set: sharded <=> documented rule, limits still reported, root CID == fresh build.
+//
 // Known findings (DESIGN §7-F8) are recognised by narrow signatures, see the three
 // kit.Result{Known: ...} returns in runDynamic.
 
 import (
 	"context"
+	"errors"
 	"fmt"
 	"os"
 	"sort"
@@ -53,6 +62,100 @@ type Op struct {
 	Kind  string `json:"kind"` // add | remove
 	Name  string `json:"name"`
 	Child int    `json:"child,omitempty"`
+	// FailAdd n > 0 (add ops only): the n-th DAGService.Add call issued while this AddChild runs
+	// returns an error (1-based). 0 = no fault. If the op issues fewer calls nothing fails.
+	FailAdd int `json:"fail_add,omitempty"`
+}
+
+// ---------------------------------------------------------------------------
+// fault injection: DAGService whose Add can be made to fail on a chosen call index
+
+var errInjected = errors.New("harness: injected DAGService.Add failure")
+
+type faultDAG struct {
+	ipld.DAGService
+	failAt int // the failAt-th Add since arm() fails; 0 = disarmed
+	calls  int
+	fired  bool
+}
+
+func (f *faultDAG) arm(n int) { f.failAt, f.calls, f.fired = n, 0, false }
+
+func (f *faultDAG) hit() bool {
+	if f.failAt <= 0 {
+		return false
+	}
+	f.calls++
+	if f.calls == f.failAt {
+		f.fired = true
+		return true
+	}
+	return false
+}
+
+func (f *faultDAG) Add(ctx context.Context, nd ipld.Node) error {
+	if f.hit() {
+		return errInjected
+	}
+	return f.DAGService.Add(ctx, nd)
+}
+
+func (f *faultDAG) AddMany(ctx context.Context, nds []ipld.Node) error {
+	if f.hit() {
+		return errInjected
+	}
+	return f.DAGService.AddMany(ctx, nds)
+}
+
+// observe: the entry set the directory itself reports (name -> CID).
+func observe(ctx context.Context, d uio.Directory) (map[string]cid.Cid, error) {
+	links, err := d.Links(ctx)
+	if err != nil {
+		return nil, err
+	}
+	m := make(map[string]cid.Cid, len(links))
+	for _, l := range links {
+		m[l.Name] = l.Cid
+	}
+	if len(m) != len(links) {
+		return nil, fmt.Errorf("Links() lists %d links but only %d distinct names", len(links), len(m))
+	}
+	return m, nil
+}
+
+func sameSet(obs map[string]cid.Cid, model map[string]entry) bool {
+	if len(obs) != len(model) {
+		return false
+	}
+	for n, e := range model {
+		if c, ok := obs[n]; !ok || !c.Equals(e.c) {
+			return false
+		}
+	}
+	return true
+}
+
+// afterFailedAdd decides from the entries the directory reports whether an AddChild that returned
+// the injected error took effect. judged=false: the reported set is neither the set before nor
+// the set after the op (the property does not say what a failed edit does to the entries, so such
+// a case is not judged).
+func afterFailedAdd(ctx context.Context, d uio.Directory, model map[string]entry, name string, ne entry) (applied, judged bool, err error) {
+	obs, err := observe(ctx, d)
+	if err != nil {
+		return false, false, err
+	}
+	if sameSet(obs, model) {
+		return false, true, nil
+	}
+	old, had := model[name]
+	model[name] = ne
+	post := sameSet(obs, model)
+	if had {
+		model[name] = old
+	} else {
+		delete(model, name)
+	}
+	return post, post, nil
 }
 
 type Case struct {
@@ -256,6 +359,7 @@ func genCommon(t *rapid.T, hamtOnly bool) (Case, []map[string]entry) {
 		snapshot()
 	}
 	if hamtOnly {
+		insertFaults(t, &c, states, false)
 		return c, states
 	}
 	// thresholds ON the boundary of this history's own path
@@ -289,7 +393,52 @@ func genCommon(t *rapid.T, hamtOnly bool) (Case, []map[string]entry) {
 		}
 		c.Cfg.MaxLinks = v
 	}
+	insertFaults(t, &c, states, true)
 	return c, states
+}
+
+// insertFaults puts, in 60 % of the cases, 1..3 failing copies of add ops into the history, each
+// directly BEFORE the add it copies (so the entry sets the fault-free continuation walks through
+// stay the ones the thresholds were derived from, whether or not the failing copy takes effect).
+// In a dynamic directory the first one goes, when there is one, in front of an add that crosses
+// the documented sharding rule upwards: the only AddChild of a basic directory that writes to
+// the DAG service.
+func insertFaults(t *rapid.T, c *Case, states []map[string]entry, dynamic bool) {
+	cls := rapid.IntRange(0, 9).Draw(t, "faultclass")
+	if cls < 4 {
+		return
+	}
+	var adds, ups []int
+	for i, op := range c.Ops {
+		if op.Kind != "add" {
+			continue
+		}
+		adds = append(adds, i)
+		if dynamic && !rule(c.Cfg, states[i]) && rule(c.Cfg, states[i+1]) {
+			ups = append(ups, i)
+		}
+	}
+	if len(adds) == 0 {
+		return
+	}
+	at := map[int]int{}
+	n := rapid.IntRange(1, 3).Draw(t, "nfaults")
+	for k := 0; k < n; k++ {
+		src := adds
+		if k == 0 && cls < 9 && len(ups) > 0 {
+			src = ups
+		}
+		i := rapid.SampledFrom(src).Draw(t, "fault_at")
+		at[i] = rapid.SampledFrom([]int{1, 1, 1, 1, 2}).Draw(t, "fault_call")
+	}
+	ops := make([]Op, 0, len(c.Ops)+len(at))
+	for i, op := range c.Ops {
+		if k, ok := at[i]; ok {
+			ops = append(ops, Op{Kind: "add", Name: op.Name, Child: op.Child, FailAdd: k})
+		}
+		ops = append(ops, op)
+	}
+	c.Ops = ops
 }
 
 func genDynamic(t *rapid.T) Case { c, _ := genCommon(t, false); return c }
@@ -391,6 +540,9 @@ func validCase(c Case) bool {
 		if op.Name == "" || op.Child < 0 || op.Child >= len(c.Children) || (op.Kind != "add" && op.Kind != "remove") {
 			return false
 		}
+		if op.FailAdd < 0 || (op.FailAdd > 0 && op.Kind != "add") {
+			return false
+		}
 	}
 	return true
 }
@@ -407,7 +559,7 @@ func runDynamic(c Case) kit.Result {
 		return kit.Result{} // threshold below the size of the empty directory: outside the domain
 	}
 	ctx := context.Background()
-	ds := mdtest.Mock()
+	ds := &faultDAG{DAGService: mdtest.Mock()}
 	children := makeChildren(c.Children)
 	for _, ch := range children {
 		if err := ds.Add(ctx, ch.nd); err != nil {
@@ -431,6 +583,7 @@ func runDynamic(c Case) kit.Result {
 	}
 	toHAMT, toBasic, replaces := 0, 0, 0
 	addDown := 0
+	faultFired, faultAtUp, faultNoWrite := 0, 0, 0
 
 	for i, op := range c.Ops {
 		when := fmt.Sprintf("op %d %s(%q)", i, op.Kind, op.Name)
@@ -441,18 +594,59 @@ func runDynamic(c Case) kit.Result {
 			opChange -= unit(op.Name, old)
 		}
 		var ne entry
+		// applied: the op changed the entry set as asked. false only for an AddChild that returned
+		// the injected write error and left the reported entries as they were.
+		applied := true
+		failed := false
 		switch op.Kind {
 		case "add":
 			ch := children[op.Child]
 			ne = entry{ch.nd.Cid(), ch.size, op.Child}
 			opChange += unit(op.Name, ne)
-			if err := dir.AddChild(ctx, op.Name, ch.nd); err != nil {
-				return kit.Fail("%s: AddChild: %v", when, err)
+			ds.arm(op.FailAdd)
+			err := dir.AddChild(ctx, op.Name, ch.nd)
+			fired := ds.fired
+			ds.arm(0)
+			if op.FailAdd > 0 && !fired {
+				faultNoWrite++
 			}
-			if had {
-				replaces++
+			if err != nil {
+				if !fired {
+					return kit.Fail("%s: AddChild: %v", when, err)
+				}
+				// the injected DAG write failure surfaced: a failed edit. The directory's own
+				// listing says what its entry set is now.
+				when = fmt.Sprintf("op %d add(%q) that FAILED on injected DAGService.Add error (call %d)", i, op.Name, op.FailAdd)
+				failed = true
+				faultFired++
+				var m2 map[string]entry
+				if !wasHAMT {
+					m2 = map[string]entry{}
+					for k, v := range model {
+						m2[k] = v
+					}
+					m2[op.Name] = ne
+					if rule(cfg, m2) {
+						faultAtUp++
+					}
+				}
+				var judged bool
+				applied, judged, err = afterFailedAdd(ctx, dir, model, op.Name, ne)
+				if err != nil {
+					return kit.Fail("%s: Links(): %v", when, err)
+				}
+				if !judged {
+					return kit.Result{Classes: []string{"failed-add-left-other-entry-set(not judged)"}}
+				}
 			}
-			model[op.Name] = ne
+			if applied {
+				if had {
+					replaces++
+				}
+				model[op.Name] = ne
+			} else {
+				had, opChange = false, 0
+			}
 		case "remove":
 			if !had {
 				continue // generator never removes a missing name; ignore in hand-written cases
@@ -471,13 +665,15 @@ func runDynamic(c Case) kit.Result {
 			if had {
 				sc -= linksSize(op.Name, old.c)
 			}
-			sc += linksSize(op.Name, ne.c)
+			if applied {
+				sc += linksSize(op.Name, ne.c)
+			}
 			toHAMT++
 		case wasHAMT && nowHAMT:
 			if had {
 				sc -= linksSize(op.Name, old.c)
 			}
-			if op.Kind == "add" {
+			if op.Kind == "add" && applied {
 				sc += linksSize(op.Name, ne.c)
 			}
 		case wasHAMT && !nowHAMT:
@@ -509,7 +705,7 @@ func runDynamic(c Case) kit.Result {
 			}
 			err := fmt.Errorf("%s: directory is HAMT=%v but the documented rule gives HAMT=%v: estimated size %d vs threshold %d (mode %d), %d entries vs maxLinks %d; was HAMT before the op: %v",
 				when, nowHAMT, want, estSize(cfg, model), thr, cfg.mode(), len(model), cfg.MaxLinks, wasHAMT)
-			if !nowHAMT && want && wasHAMT && cfg.mode() != 2 && !(cfg.MaxLinks > 0 && len(model) > cfg.MaxLinks) {
+			if applied && !nowHAMT && want && wasHAMT && cfg.mode() != 2 && !(cfg.MaxLinks > 0 && len(model) > cfg.MaxLinks) {
 				// converted HAMT->basic although the resulting size is above the threshold. Known
 				// signature: needsToSwitchToBasicDir sizes the entry to be removed with its
 				// shard-internal link name (hex prefix of the fanout included: over-counted by
@@ -527,7 +723,7 @@ func runDynamic(c Case) kit.Result {
 					return kit.Result{Err: err, Known: "downconv-size-miscount"}
 				}
 			}
-			if nowHAMT && !want && wasHAMT && !gateOpen {
+			if applied && cfg.mode() != 2 && nowHAMT && !want && wasHAMT && !gateOpen {
 				// stayed HAMT although the current set belongs in a basic directory, and the
 				// size-change gate (net size change since the conversion >= 0) kept the code from
 				// even looking: the confirmed history dependence
@@ -536,7 +732,7 @@ func runDynamic(c Case) kit.Result {
 			return kit.Result{Err: err}
 		}
 		// (3) root CID == canonical build of the current set
-		if c.EveryStep || i == len(c.Ops)-1 {
+		if c.EveryStep || failed || i == len(c.Ops)-1 {
 			nd, err := dir.GetNode()
 			if err != nil {
 				return kit.Fail("%s: GetNode: %v", when, err)
@@ -578,12 +774,21 @@ func runDynamic(c Case) kit.Result {
 	if c.EveryStep {
 		cls = append(cls, "cid-every-step")
 	}
-	return kit.Result{NonTrivial: toHAMT > 0 && toBasic > 0, Classes: cls}
+	if faultFired > 0 {
+		cls = append(cls, "add-failed-on-injected-write-error")
+	}
+	if faultAtUp > 0 {
+		cls = append(cls, "add-failed-at-basic->hamt-boundary")
+	}
+	if faultNoWrite > 0 {
+		cls = append(cls, "fault-armed-but-no-write-issued")
+	}
+	return kit.Result{NonTrivial: (toHAMT > 0 && toBasic > 0) || faultAtUp > 0, Classes: cls}
 }
 
 var dynSpec = kit.Spec[Case]{
 	Prop: "C16", Name: "dynamic",
-	Rule:  "dynamic directory; history of <=36 (thorough 40) adds/replacements/removals over colliding + general names and targets with CID lengths 24..68 bytes; per-directory threshold = estimated size of one of the history's own intermediate entry sets + {-1,0,+1} in the configured estimation mode, maxLinks = size of one intermediate set + {-1,0,+1}; after every op: HAMT <=> documented rule on the current set (size computed independently), GetHAMTShardingSize/GetMaxLinks == configured, root CID == canonical sorted fresh build; non-trivial = the history crossed the sharding boundary in both directions",
+	Rule:  "dynamic directory; history of <=36 (thorough 40) adds/replacements/removals over colliding + general names and targets with CID lengths 24..68 bytes; per-directory threshold = estimated size of one of the history's own intermediate entry sets + {-1,0,+1} in the configured estimation mode, maxLinks = size of one intermediate set + {-1,0,+1}; after every op: HAMT <=> documented rule on the current set (size computed independently), GetHAMTShardingSize/GetMaxLinks == configured, root CID == canonical sorted fresh build; 60% of the cases carry 1..3 AddChild calls whose DAGService.Add fails (placed before the add that crosses the boundary upwards, and before other adds; retried without fault): the same three clauses are demanded after the failed call for the entry set the directory then lists; non-trivial = the history crossed the sharding boundary in both directions, or an injected write failure hit the AddChild that converts basic->HAMT",
 	Quick: 3000, Thorough: 15000,
 	Gen: genDynamic, Run: runDynamic,
 	Sample: func(c Case) any {
@@ -602,7 +807,7 @@ func runHamt(c Case) kit.Result {
 	}
 	cfg := c.Cfg
 	ctx := context.Background()
-	ds := mdtest.Mock()
+	ds := &faultDAG{DAGService: mdtest.Mock()}
 	children := makeChildren(c.Children)
 	for _, ch := range children {
 		if err := ds.Add(ctx, ch.nd); err != nil {
@@ -622,16 +827,38 @@ func runHamt(c Case) kit.Result {
 		}
 		return s
 	}
-	collapses, maxShards := 0, 0
+	collapses, maxShards, faultFired := 0, 0, 0
 	for i, op := range c.Ops {
 		when := fmt.Sprintf("op %d %s(%q)", i, op.Kind, op.Name)
+		failed := false
 		switch op.Kind {
 		case "add":
 			ch := children[op.Child]
-			if err := dir.AddChild(ctx, op.Name, ch.nd); err != nil {
-				return kit.Fail("%s: AddChild: %v", when, err)
+			ne := entry{ch.nd.Cid(), ch.size, op.Child}
+			ds.arm(op.FailAdd)
+			err := dir.AddChild(ctx, op.Name, ch.nd)
+			fired := ds.fired
+			ds.arm(0)
+			applied := true
+			if err != nil {
+				if !fired {
+					return kit.Fail("%s: AddChild: %v", when, err)
+				}
+				when = fmt.Sprintf("op %d add(%q) that FAILED on injected DAGService.Add error (call %d)", i, op.Name, op.FailAdd)
+				failed = true
+				faultFired++
+				var judged bool
+				applied, judged, err = afterFailedAdd(ctx, dir, model, op.Name, ne)
+				if err != nil {
+					return kit.Fail("%s: Links(): %v", when, err)
+				}
+				if !judged {
+					return kit.Result{Classes: []string{"failed-add-left-other-entry-set(not judged)"}}
+				}
 			}
-			model[op.Name] = entry{ch.nd.Cid(), ch.size, op.Child}
+			if applied {
+				model[op.Name] = ne
+			}
 		case "remove":
 			if _, had := model[op.Name]; !had {
 				continue
@@ -648,7 +875,7 @@ func runHamt(c Case) kit.Result {
 		if n := kit.HamtShardCount(names(), width); n > maxShards {
 			maxShards = n
 		}
-		if c.EveryStep || i == len(c.Ops)-1 {
+		if c.EveryStep || failed || i == len(c.Ops)-1 {
 			nd, err := dir.GetNode()
 			if err != nil {
 				return kit.Fail("%s: GetNode: %v", when, err)
@@ -677,12 +904,15 @@ func runHamt(c Case) kit.Result {
 	if c.EveryStep {
 		cls = append(cls, "cid-every-step")
 	}
+	if faultFired > 0 {
+		cls = append(cls, "add-failed-on-injected-write-error")
+	}
 	return kit.Result{NonTrivial: collapses > 0, Classes: cls}
 }
 
 var hamtSpec = kit.Spec[Case]{
 	Prop: "C16", Name: "hamt",
-	Rule:  "pure HAMT directory, fanout 8..1024; same histories; root CID == canonical sorted fresh build after every op (or at the end); non-trivial = a removal collapsed a sub-shard (model shard count decreased)",
+	Rule:  "pure HAMT directory, fanout 8..1024; same histories; root CID == canonical sorted fresh build after every op (or at the end) and after every AddChild that failed on an injected DAGService.Add error (for the entry set then listed); non-trivial = a removal collapsed a sub-shard (model shard count decreased)",
 	Quick: 1500, Thorough: 6000,
 	Gen: genHamt, Run: runHamt,
 	Sample: func(c Case) any {
